@@ -127,9 +127,24 @@ def _ids_job(args):
         for t in ts:
             t.join()
         orders = [o for r in res for o in r]
+    elif mode == "coarse-clock":
+        # every readable wall clock stands still while the orders are created (a coarse / frozen / stepped-back
+        # system clock): ids stay unique (uuid1 guarantees it; a plain clock reading does not)
+        import time as _time
+
+        saved = (_time.time, _time.time_ns, _time.monotonic, _time.monotonic_ns, _time.perf_counter_ns)
+        t0, t0n = _time.time(), _time.time_ns()
+        _time.time, _time.time_ns = (lambda: t0), (lambda: t0n)
+        try:
+            orders = [_mk(st) for _ in range(min(n, 2000))]
+        finally:
+            _time.time, _time.time_ns = saved[0], saved[1]
     elif mode == "seam":
         # id source seam: boundary timestamps (17 and 18 digit values; 19 digits only occur after year 4700)
-        real = oo.uuid
+        real = getattr(oo, "uuid", None)
+        if real is None:
+            counts["id_seam_not_evaluated"] = 1
+            return dict(violations=out, counts=counts)
 
         class Shim:
             def __init__(self):
@@ -474,7 +489,7 @@ def run(tier):
         rep.add_violations(r["violations"])
         rep.merge_counts(r["counts"])
     n = 40000 if thorough else 10000
-    for r in core.pmap(_ids_job, [("loop", n), ("simclock", n), ("threads", n), ("seam", 6)], chunk=1):
+    for r in core.pmap(_ids_job, [("loop", n), ("simclock", n), ("threads", n), ("coarse-clock", n), ("seam", 6)], chunk=1):
         rep.add_violations(r["violations"])
         rep.merge_counts(r["counts"])
     rj = []
